@@ -624,9 +624,16 @@ code's queries are). -/
 def KState.detachProductsWhere (s : KState) (step : Key) (p : Node → Bool) : M KState :=
   ((s.products step).filter p).foldlM (fun s n => s.detach n.key) s
 
+/-- The steps producing a dynamic input of `step` are flagged `_check_after`: they are about to
+lose a sink that the propagation of `_update_meta_after` could not reach any more. -/
+def KState.flagDynamicSuppliers (s : KState) (step : Key) : KState :=
+  s.modifyWhere (fun n => n.key.kind = .step ∧
+      s.deps.any fun d => d.src = n.key ∧ s.deps.any fun e => e.snk = step ∧ e.dyn ∧ e.src = d.snk)
+    fun n => { n with checkAfter := true }
+
 /-- Drop the dynamic input edges, the dynamic environment variables and the glob registrations. -/
 def KState.dropDynamicInputs (s : KState) (step : Key) : KState :=
-  (s.deleteDeps fun d => d.snk = step ∧ d.dyn).modify step fun n =>
+  ((s.flagDynamicSuppliers step).deleteDeps fun d => d.snk = step ∧ d.dyn).modify step fun n =>
     { n with envs := n.envs.filter fun e => !e.2.2, nglobs := [] }
 
 def KState.dynamicSinks (s : KState) (step : Key) : List Key :=
